@@ -15,414 +15,122 @@ def check(rep, tier, replay=None):
     tables.run(rep, "W.util", tables.utility_witnesses(10), "monomial_derivative(s), monomial_integral, lagrange_basis, lgr_nodes", 80, second)
     rep.unit("2 batched static_assert TUs over polynomial/basis.hpp, polynomial/quadrature.hpp")
     check_i1(rep)
-    check_i3(rep)
     check_i2(rep, 8 if tier == "thorough" else 7)
 
 
 # ---- I1: integrate_absolute_polynomial by exhaustive case analysis over the ordering of roots and interval ends ------
 
 def check_i1(rep):
-    import itertools
-    import re
+    """I1 on engine M: integrate_absolute_polynomial (with whatever helpers it calls) is abstractly executed over exact rationals -- sqrt of the perfect-square
+    discriminants chosen here is exact, +infinity is the IEEE special -- for every ordering of the sign changes relative to [t0, t1] (left / on t0 / inside /
+    on t1 / right, all pairs), both signs of A and both signs of B (mirrored interval), the degenerate kinds (constant, linear, no real root, double root) and an
+    empty interval; the result must equal the exact integral of |A t^2 + B t + C| obtained by splitting at the roots."""
     from fractions import Fraction
     import astlib as A
     import fe
-    import pe
+    import mach
     from report import Finding
-    rep.rule("I1", "integrate_absolute_polynomial: in every ordering of the roots relative to [t0,t1] and every sign of (A, B) the result is |sum of signed antiderivative differences|", minimum=25)
+    rep.rule("I1", "integrate_absolute_polynomial, abstractly executed over exact rationals: for every ordering of the sign changes relative to [t0, t1] and every sign of "
+             "(A, B), also with values scaled by 1e-12 / 1e12 and time by 1e-6 / 1e6, the result is the exact integral of |A t^2 + B t + C|", minimum=500)
     idx = A.index(fe.ast_dump("integrate_absolute_polynomial"))
     fns = [d for d in idx if d.kind in A.FUNCS and d.pattern and d.qname.split("::")[-1] == "integrate_absolute_polynomial" and A.body(d.node) is not None]
     if len(fns) != 1:
         rep.broke("I1: integrate_absolute_polynomial not found")
         return
     fn = fns[0]
-    body = A.body(fn.node)
+    decls = {"integrate_absolute_polynomial": [fn]}
 
-    class Bad(Exception):
-        pass
-    POS = {"L": -1, "t0": 0, "I": 1, "t1": 2, "R": 3}     # position classes of a point relative to t0 < t1
+    def minmax(M, v):
+        a, b = v
+        lo, hi = (b, a) if M.compare("<", b, a) else (a, b)
+        return mach.Tup([mach.Cell(lo), mach.Cell(hi)])
 
-    def xev(e, env, loc):
-        """exact evaluation over rationals: + - * /, sqrt of perfect squares, abs, comparisons, ?: ; locals are expanded from `loc`"""
-        t = e[0]
-        if t == "num":
-            return Fraction(e[1])
-        if t == "ref":
-            if e[1] in env:
-                return Fraction(env[e[1]])
-            if e[1] in loc:
-                return xev(loc[e[1]], env, loc)
-            raise Bad("unknown name %s" % e[1])
-        if t == "neg":
-            return -xev(e[1], env, loc)
-        if t == "ctor" and len(e[2]) == 1:
-            return xev(e[2][0], env, loc)
-        if t == "cond":
-            return xev(e[2], env, loc) if xev(e[1], env, loc) else xev(e[3], env, loc)
-        if t == "op":
-            a, b = xev(e[2], env, loc), xev(e[3], env, loc)
-            op = e[1]
-            if op == "/":
-                if b == 0:
-                    raise Bad("division by zero in a root formula")
-                return a / b
-            return {"+": lambda: a + b, "-": lambda: a - b, "*": lambda: a * b, "<": lambda: Fraction(int(a < b)), ">": lambda: Fraction(int(a > b)),
-                    "<=": lambda: Fraction(int(a <= b)), ">=": lambda: Fraction(int(a >= b)), "==": lambda: Fraction(int(a == b)),
-                    "!=": lambda: Fraction(int(a != b)), "&&": lambda: Fraction(int(bool(a) and bool(b))), "||": lambda: Fraction(int(bool(a) or bool(b)))}[op]()
-        if t == "call":
-            nm = str(e[1]).split("::")[-1]
-            args = [xev(a, env, loc) for a in e[2]]
-            if nm == "sqrt":
+    def copysign(M, v):
+        a = v[0] if not M.compare("<", v[0], Fraction(0)) else M.arith("-", Fraction(0), v[0])
+        return a if not M.compare("<", v[1], Fraction(0)) else M.arith("-", Fraction(0), a)
+
+    def exact(t0, t1, A_, B_, C_):
+        F = lambda u: A_ * u ** 3 / 3 + B_ * u ** 2 / 2 + C_ * u
+        roots = []
+        if A_ == 0:
+            if B_ != 0:
+                roots = [-C_ / B_]
+        else:
+            disc = B_ * B_ - 4 * A_ * C_
+            if disc > 0:
                 from math import isqrt
-                v = args[0]
-                if v < 0:
-                    raise Bad("sqrt of a negative number")
-                rn, rd = isqrt(v.numerator), isqrt(v.denominator)
-                if rn * rn != v.numerator or rd * rd != v.denominator:
-                    raise Bad("sqrt of a non-square rational")
-                return Fraction(rn, rd)
-            if nm in ("abs", "fabs"):
-                return abs(args[0])
-            if nm == "copysign":
-                return abs(args[0]) * (1 if args[1] >= 0 else -1)
-            if nm == "min":
-                return min(args)
-            if nm == "max":
-                return max(args)
-        raise Bad("cannot evaluate `%s` exactly" % A.show(e)[:50])
+                sn, sd = isqrt(disc.numerator), isqrt(disc.denominator)
+                assert sn * sn == disc.numerator and sd * sd == disc.denominator
+                sq = Fraction(sn, sd)
+                roots = sorted([(-B_ - sq) / (2 * A_), (-B_ + sq) / (2 * A_)])
+        pts = [t0] + [r for r in roots if t0 < r < t1] + [t1]
+        return sum(abs(F(b) - F(a)) for a, b in zip(pts, pts[1:]))
 
-    # quadratics A (x - r1)(x - r2) with rational roots r1 < r2, by sign of A and of B = -A (r1 + r2)
-    def quad_instances(sa, sb):
-        roots = [(1, 3), (-1, 4), (Fraction(1, 2), 5)] if sa * sb < 0 else [(-3, -1), (-4, 1), (-5, Fraction(-1, 2))]
-        out = []
-        for (r1, r2), a in zip(roots, (2, 5, 3)):
-            a = a * sa
-            out.append((Fraction(a), Fraction(-a) * (r1 + r2), Fraction(a) * r1 * r2, Fraction(r1), Fraction(r2)))
-        return out
-
-    def run_case(kind, cls, sc=(1, 1)):
-        """kind: const | linear | quad0 (no real roots) | quad2 ; cls: position class(es) of the root(s); sc: signs of (A, B) for quad2.
-        returns the linear combination {point: coeff} inside the final abs()."""
-        nums = {"const": {"A": 0, "B": 0}, "linear": {"A": 0, "B": 3}, "quad0": {"A": 2, "B": 3}, "quad2": {"A": 2 * sc[0], "B": 3 * sc[1]}}[kind]
-        env = {}           # variable -> abstract point name or ('lin', dict)
-        pos = {"t0": "t0", "t1": "t1", "inf": "R"}
-        if kind == "linear":
-            pos["r"] = cls[0]
-        if kind == "quad2":
-            pos["r1"], pos["r2"] = cls
-        lam = {}
-
-        def point(e):
-            """abstract point denoted by expression e"""
-            t = re.sub(r"\s", "", A.show(e))
-            if e[0] == "ref" and e[1] in ("t0", "t1"):
-                return e[1]
-            if e[0] == "ref" and e[1] in env:
-                return env[e[1]]
-            if "infinity" in t:
-                return "inf"
-            if e[0] == "call":
-                nm = str(e[1]).split("::")[-1]
-                if nm in ("clamp", "min", "max"):
-                    args = [point(a) for a in e[2]]
-                    if nm == "clamp":
-                        return pmax(pmin(args[0], args[2]), args[1])
-                    return pmin(*args) if nm == "min" else pmax(*args)
-            # root formulas
-            if kind == "linear":
-                try:
-                    if all(pe.ev(e, {"A": 0, "B": b, "C": c}) == Fraction(-c, b) for b, c in ((3, 5), (-2, 7))):
-                        return "r"
-                except pe.PEError:
-                    pass
-            if kind == "quad2":
-                which = set()
-                for a, b, c, r1, r2 in quad_instances(*sc):
-                    v = xev(e, {"A": a, "B": b, "C": c}, locals_)
-                    which.add("r1" if v == r1 else ("r2" if v == r2 else "?"))
-                if which == {"r1"} or which == {"r2"}:
-                    return which.pop()
-                if "?" not in which:
-                    raise Bad("`%s` is the smaller root for some coefficients and the larger one for others within one sign case" % A.show(e)[:40])
-            raise Bad("cannot interpret `%s` as a point" % A.show(e)[:60])
-
-        def res_env(a, b, c):
-            out = {}
-            for n, ex in locals_.items():
-                try:
-                    out[n] = pe.ev(ex, {"A": a, "B": b, "C": c})
-                except pe.PEError:
-                    pass
-            return out
-
-        def rank(p):
-            c = pos[p]
-            return (POS[c], {"r1": 0, "r": 0, "r2": 1}.get(p, 0))
-
-        def pmin(a, b):
-            if a == b:
-                return a
-            ra, rb = rank(a), rank(b)
-            if ra == rb:
-                raise Bad("order of %s and %s undetermined" % (a, b))
-            return a if ra < rb else b
-
-        def pmax(a, b):
-            if a == b:
-                return a
-            ra, rb = rank(a), rank(b)
-            if ra == rb:
-                raise Bad("order of %s and %s undetermined" % (a, b))
-            return a if ra > rb else b
-
-        def lin(e):
-            if e[0] == "num":
-                return {(): Fraction(e[1])}
-            if e[0] in ("call", "sub") and ((e[0] == "call" and e[1] in lam) or (e[0] == "sub" and e[1][0] == "ref" and e[1][1] in lam)):
-                arg = e[2][0]
-                p = point(arg)
-                p = {"inf": "t1"}.get(p, p) if False else p
-                return {p: Fraction(1)}
-            if e[0] == "op" and e[1] in ("+", "-"):
-                a, b = lin(e[2]), lin(e[3])
-                out = dict(a)
-                for k, v in b.items():
-                    out[k] = out.get(k, 0) + (v if e[1] == "+" else -v)
-                return out
-            if e[0] == "op" and e[1] == "*":
-                a, b = lin(e[2]), lin(e[3])
-                if set(a) == {()}:
-                    return {k: v * a[()] for k, v in b.items()}
-                if set(b) == {()}:
-                    return {k: v * b[()] for k, v in a.items()}
-            if e[0] == "neg":
-                return {k: -v for k, v in lin(e[1]).items()}
-            raise Bad("cannot interpret `%s` as a combination of antiderivative values" % A.show(e)[:60])
-
-        locals_ = {}
-
-        def cond(e):
-            t = re.sub(r"\s", "", A.show(e))
-            if e[0] == "op" and e[1] == "&&":
-                return cond(e[2]) and cond(e[3])
-            if e[0] == "op" and e[1] == "||":
-                return cond(e[2]) or cond(e[3])
-            if e[0] == "op" and e[1] in ("<", ">", "<=", ">=") and e[2][0] == "call" and str(e[2][1]).split("::")[-1] == "abs":
-                v = abs(nums[e[2][2][0][1]])
-                thr = pe.ev(e[3], {})
-                return {"<": v < thr, ">": v > thr, "<=": v <= thr, ">=": v >= thr}[e[1]]
-            if e[0] == "op" and e[1] in (">", ">=") and e[2][0] == "ref" and e[2][1] in locals_ and e[3] == ("num", 0):
-                return kind == "quad2"      # discriminant-like quantity positive exactly when there are two distinct real roots
-            try:
-                return bool(xev(e, dict(nums), {}))       # comparisons of the coefficients themselves (A == 0, B != 0, ...)
-            except Bad:
-                pass
-            raise Bad("condition `%s`" % t[:60])
-
-        result = {}
-
-        def ex(stmt):
-            k = stmt.get("kind")
-            if k == "CompoundStmt":
-                for c in A.kids(stmt):
-                    ex(c)
-            elif k == "DeclStmt":
-                for v in A.kids(stmt):
-                    if v.get("kind") != "VarDecl" or not A.kids(v):
+    cases = []
+    for mirror in (1, -1):
+        lo, hi = (Fraction(1), Fraction(4)) if mirror == 1 else (Fraction(-4), Fraction(-1))
+        cls = {"L": [-3, -1], "t0": [1], "I": [2, 3], "t1": [4], "R": [6, 8]}
+        vals = lambda c, k=0: Fraction(mirror * cls[c][k])
+        for C_ in (2, -2, 0):
+            cases.append(("constant", lo, hi, Fraction(0), Fraction(0), Fraction(C_)))
+        for sb in (3, -3):
+            for c in cls:
+                r = vals(c)
+                cases.append(("linear root %s" % c, lo, hi, Fraction(0), Fraction(sb), -Fraction(sb) * r))
+        for sa in (2, -2):
+            for sb in (3, -3, 0):
+                cases.append(("no real root", lo, hi, Fraction(sa), Fraction(sb), Fraction(sa) * 5))
+            for c in cls:
+                r = vals(c)
+                cases.append(("double root %s" % c, lo, hi, Fraction(sa), -2 * Fraction(sa) * r, Fraction(sa) * r * r))
+            order = ["L", "t0", "I", "t1", "R"]
+            for i, c1 in enumerate(order):
+                for c2 in order[i:]:
+                    if c1 == c2 and len(cls[c1]) < 2:
                         continue
-                    e = A.to_expr(A.kids(v)[-1])
-                    if e[0] == "lambda":
-                        lam[v.get("name")] = e[1]
-                    else:
-                        try:
-                            env[v.get("name")] = point(e)
-                        except Bad:
-                            locals_[v.get("name")] = e
-            elif k == "IfStmt":
-                ks = A.kids(stmt)
-                if cond(A.to_expr(ks[0])):
-                    ex(ks[1])
-                elif len(ks) > 2:
-                    ex(ks[2])
-            elif k in ("BinaryOperator", "CXXOperatorCallExpr", "ExprWithCleanups"):
-                e = A.to_expr(stmt)
-                if e[0] == "op" and e[1] == "=" and e[2][0] == "ref":
-                    env[e[2][1]] = point(e[3])
-                else:
-                    raise Bad("statement %s" % A.show(e)[:50])
-            elif k == "ReturnStmt":
-                e = A.to_expr(A.kids(stmt)[0])
-                if not (e[0] == "call" and str(e[1]).split("::")[-1] == "abs"):
-                    raise Bad("result is not the absolute value of a signed sum")
-                result["v"] = lin(e[2][0])
-            else:
-                raise Bad("statement kind %s" % k)
-        ex(body)
-        if "v" not in result:
-            raise Bad("no return")
-        # antiderivative check
-        for n, node in lam.items():
-            lb = A.lambda_body(node)
-            rets = [x for x in A.walk(lb) if x.get("kind") == "ReturnStmt"]
-            pn = [p.get("name") for x in A.kids(node) if x.get("kind") == "CXXRecordDecl" for m in A.kids(x) if m.get("kind") == "CXXMethodDecl" and m.get("name") == "operator()" for p in A.params(m)]
-            u = pn[0] if pn else "u"
-            e = A.to_expr(A.kids(rets[0])[0])
-            for (a, b, c, uu) in ((2, 3, 5, 7), (-1, 4, 9, Fraction(1, 2)), (5, -6, 1, -3)):
-                if pe.ev(e, {"A": a, "B": b, "C": c, u: uu}) != Fraction(a) * uu ** 3 / 3 + Fraction(b) * uu ** 2 / 2 + c * uu:
-                    raise Bad("lambda %s is not the antiderivative A u^3/3 + B u^2/2 + C u" % n)
-        out = {}
-        for p, c in result["v"].items():
-            q = "t1" if p == "inf" else p
-            out[q] = out.get(q, 0) + c
-        return {p: c for p, c in out.items() if c != 0}
-
-    def expected(kind, cls):
-        roots = {"const": [], "linear": ["r"], "quad0": [], "quad2": ["r1", "r2"]}[kind]
-        cl = []
-        for p, c in zip(roots, cls):
-            cl.append({"L": "t0", "t0": "t0", "I": p, "t1": "t1", "R": "t1"}[c])
-        while len(cl) < 2:
-            cl.append("t1")
-        want = {}
-        for p, c in (("t1", 1), ("t0", -1), (cl[0], 2), (cl[1], -2)):
-            want[p] = want.get(p, 0) + c
-        return {p: c for p, c in want.items() if c != 0}
-    cases = [("const", (), (1, 1)), ("quad0", (), (1, 1))] + [("linear", (c,), (1, 1)) for c in ("L", "I", "R")] + \
-            [("quad2", c, sc_) for c in (("L", "L"), ("L", "I"), ("L", "R"), ("I", "I"), ("I", "R"), ("R", "R")) for sc_ in ((1, 1), (1, -1), (-1, 1), (-1, -1))]
-    for kind, cls, sc_ in cases:
-        inst = "%s%s" % (kind, list(cls)) + (" A%s B%s" % ("+" if sc_[0] > 0 else "-", "+" if sc_[1] > 0 else "-") if kind == "quad2" else "")
+                    r1, r2 = (vals(c1, 0), vals(c2, 1 if c1 == c2 else 0))
+                    r1, r2 = min(r1, r2), max(r1, r2)
+                    cases.append(("roots %s, %s" % ((c1, c2) if mirror == 1 else (c2, c1)), lo, hi, Fraction(sa), -Fraction(sa) * (r1 + r2), Fraction(sa) * r1 * r2))
+        cases.append(("empty interval", lo, lo, Fraction(2), Fraction(-3), Fraction(1)))
+    # the integral is homogeneous in the value unit and in the time unit: every case is also executed with the coefficients scaled by 1e-12 / 1e12 and with
+    # time rescaled by 1e-6 / 1e6 (t -> lambda t, A -> A / lambda^2, B -> B / lambda).  A case split that compares a coefficient with an absolute threshold
+    # selects the wrong case for some of these (formerly rule I3, a dimension analysis of the comparisons)
+    scaled = []
+    for what, t0, t1, A_, B_, C_ in cases:
+        scaled.append((what, t0, t1, A_, B_, C_))
+        for sv in (Fraction(1, 10 ** 12), Fraction(10 ** 12)):
+            scaled.append((what + " (values x %s)" % ("1e-12" if sv < 1 else "1e12"), t0, t1, A_ * sv, B_ * sv, C_ * sv))
+        for lt in (Fraction(1, 10 ** 6), Fraction(10 ** 6)):
+            scaled.append((what + " (time x %s)" % ("1e-6" if lt < 1 else "1e6"), t0 * lt, t1 * lt, A_ / (lt * lt), B_ / lt, C_))
+    nviol = 0
+    for what, t0, t1, A_, B_, C_ in scaled:
+        inst = "%s: [%s, %s], (A, B, C) = (%s, %s, %s)" % (what, t0, t1, A_, B_, C_)
+        M = mach.Machine(decls=decls, funcs={"minmax": mach.PyFunc(minmax), "copysign": mach.PyFunc(copysign), "infinity": mach.PyFunc(lambda M_, v: float("inf")),
+                                               "isfinite": mach.PyFunc(lambda M_, v: not isinstance(v[0], float)), "isinf": mach.PyFunc(lambda M_, v: isinstance(v[0], float))})
+        M.global_env = mach.Env()
+        M.ieee_division = True
         try:
-            got = run_case(kind, cls, sc_)
-        except (Bad, pe.PEError, KeyError) as ex_:
-            rep.broke("I1: cannot analyse case %s: %s" % (inst, ex_))
+            r = M.rv(M.run_function(fn, [mach.Cell(x) for x in (t0, t1, A_, B_, C_)]))
+        except mach.Unab as ex:
+            rep.broke("I1: integrate_absolute_polynomial is outside the abstract machine (%s): %s" % (inst, ex))
+            return
+        except mach.AbstractViolation as ex:
+            rep.instance("I1", "integrate_absolute_polynomial", inst, ok=False, sample={})
+            nviol += 1
+            if nviol <= 3:
+                rep.violation(Finding("I1", "integrate_absolute_polynomial", inst, "%s: %s" % (inst, ex), fn.file, fn.line))
             continue
-        want = expected(kind, cls)
-        neg = {p: -c for p, c in want.items()}
-        ok = got == want or got == neg
-        rep.instance("I1", "integrate_absolute_polynomial", inst, ok=ok, sample={"file": fe.rel(fn.file), "line": fn.line, "combination": {k: str(v) for k, v in got.items()}})
+        want = exact(t0, t1, A_, B_, C_)
+        ok = isinstance(mach.simp(r), Fraction) and mach.simp(r) == want
+        rep.instance("I1", "integrate_absolute_polynomial", inst, ok=ok, sample={})
         if not ok:
-            rep.violation(Finding("I1", "integrate_absolute_polynomial", inst,
-                                  "with %s (positions of the root(s) relative to [t0,t1]: %s) the function returns |%s| in terms of the antiderivative F, "
-                                  "but the integral of |p| over [t0,t1] is |%s| (each root must be clamped into the interval from both sides)"
-                                  % ({"const": "a constant integrand", "linear": "a linear integrand", "quad0": "a quadratic without real roots",
-                                      "quad2": "a quadratic with two real roots"}[kind], list(cls),
-                                     " + ".join("%s*F(%s)" % (c, p) for p, c in sorted(got.items())),
-                                     " + ".join("%s*F(%s)" % (c, p) for p, c in sorted(want.items()))), fn.file, fn.line))
+            nviol += 1
+            if nviol <= 3:
+                rep.violation(Finding("I1", "integrate_absolute_polynomial", inst, "for %s the function returns %s; the integral of |A t^2 + B t + C| over the interval is %s"
+                                      % (inst, mach.show_val(r), want), fn.file, fn.line))
 
 
 # ---- I3: dimensional consistency of the degeneracy tests of integrate_absolute_polynomial -------------------------------------
-
-def check_i3(rep):
-    """The integrand A t^2 + B t + C has a value unit V and a time unit T: A ~ V T^-2, B ~ V T^-1, C ~ V, t0, t1 ~ T.  The integral is
-    homogeneous in both (scale the coefficients, or rescale time, and it scales accordingly), so every comparison that selects a case must
-    compare quantities of equal dimension (or compare with 0).  A coefficient compared with a bare number is an absolute threshold: for
-    small coefficients on long intervals (or large ones on short intervals) the wrong case is selected."""
-    import astlib as A
-    import fe
-    from report import Finding
-    rep.rule("I3", "integrate_absolute_polynomial: every case-selecting comparison is dimensionally consistent (no absolute thresholds on A, B, C)", minimum=2)
-    idx = A.index(fe.ast_dump("integrate_absolute_polynomial"))
-    fns = [d for d in idx if d.kind in A.FUNCS and d.pattern and d.qname.split("::")[-1] == "integrate_absolute_polynomial" and A.body(d.node) is not None]
-    if len(fns) != 1:
-        rep.broke("I3: integrate_absolute_polynomial not found")
-        return
-    fn = fns[0]
-    ps = [p_.get("name") for p_ in A.params(fn.node)]
-    if len(ps) != 5:
-        rep.broke("I3: integrate_absolute_polynomial has %d parameters" % len(ps))
-        return
-    t0, t1, pa, pb, pc = ps
-    base = {t0: (0, 1), t1: (0, 1), pa: (1, -2), pb: (1, -1), pc: (1, 0)}      # (V exponent, T exponent)
-    locs = {}
-    for x in A.walk(A.body(fn.node)):
-        if x.get("kind") == "VarDecl" and A.kids(x) and x.get("name"):
-            locs[x.get("name")] = A.to_expr(A.kids(x)[-1])
-
-    class DErr(Exception):
-        pass
-
-    def dim(e, depth=0):
-        """dimension, or 'num' for a bare number, 'zero' for the literal 0 (compatible with everything)"""
-        t = e[0]
-        if t == "num":
-            return "zero" if e[1] == 0 else "num"
-        if t == "ref":
-            if e[1] in base:
-                return base[e[1]]
-            if e[1] in locs and depth < 10:
-                return dim(locs[e[1]], depth + 1)
-            raise DErr("name %s" % e[1])
-        if t == "neg":
-            return dim(e[1], depth)
-        if t == "ctor" and len(e[2]) == 1:
-            return dim(e[2][0], depth)
-        if t == "call":
-            nm = str(e[1]).split("::")[-1].split("<")[0]
-            if nm in ("abs", "fabs") and len(e[2]) == 1:
-                return dim(e[2][0], depth)
-            if nm == "sqrt" and len(e[2]) == 1:
-                d_ = dim(e[2][0], depth)
-                return d_ if d_ in ("num", "zero") else (d_[0] / 2, d_[1] / 2)
-            if nm in ("min", "max", "clamp"):
-                ds = [dim(a, depth) for a in e[2]]
-                real = [d_ for d_ in ds if d_ not in ("zero",)]
-                return real[0] if real else "zero"
-            if "infinity" in str(e[1]) or "numeric_limits" in str(e[1]):
-                return "zero"
-            raise DErr("call %s" % nm)
-        if t == "op":
-            a, b = dim(e[2], depth), dim(e[3], depth)
-            if e[1] in ("+", "-"):
-                real = [d_ for d_ in (a, b) if d_ != "zero"]
-                return real[0] if real else "zero"
-            if e[1] in ("*", "/"):
-                da = (0, 0) if a in ("num", "zero") else a
-                db = (0, 0) if b in ("num", "zero") else b
-                if a in ("num", "zero") and b in ("num", "zero"):
-                    return "num"
-                sg = 1 if e[1] == "*" else -1
-                return (da[0] + sg * db[0], da[1] + sg * db[1])
-        if t in ("member", "mcall", "other"):
-            if "infinity" in A.show(e):
-                return "zero"
-        raise DErr("expression %s" % A.show(e)[:40])
-    found = 0
-    for x in A.walk(A.body(fn.node)):
-        if x.get("kind") != "IfStmt":
-            continue
-        conds = []
-
-        def flat(c):
-            if c[0] == "op" and c[1] in ("&&", "||"):
-                flat(c[2])
-                flat(c[3])
-            else:
-                conds.append(c)
-        flat(A.to_expr(A.kids(x)[0]))
-        for c in conds:
-            if not (c[0] == "op" and c[1] in ("<", "<=", ">", ">=", "==", "!=")):
-                continue
-            found += 1
-            f, l = A.loc(x)
-            try:
-                dl, dr = dim(c[2]), dim(c[3])
-            except DErr as ex:
-                rep.broke("I3: cannot type `%s`: %s" % (A.show(c)[:50], ex))
-                continue
-            norm = lambda d_: (0, 0) if d_ == "num" else d_
-            ok = dl == "zero" or dr == "zero" or norm(dl) == norm(dr)
-            inst = A.show(c).replace(" ", "")[:40]
-            rep.instance("I3", "integrate_absolute_polynomial", inst, ok=ok, sample={"file": fe.rel(f), "line": l, "left": str(dl), "right": str(dr)})
-            if not ok:
-                def show(d_):
-                    return "a pure number" if norm(d_) == (0, 0) else "V^%g T^%g" % norm(d_)
-                rep.violation(Finding("I3", "integrate_absolute_polynomial", inst,
-                                      "the case split `%s` compares %s with %s: an absolute threshold on a coefficient.  The integral is homogeneous in the value and time "
-                                      "units, the threshold is not: e.g. |5e-10 t^2 - 1| on [0, 1e5] is treated as having constant sign (result 66666.67 instead of 126295.15)"
-                                      % (A.show(c)[:50], show(dl), show(dr)), f, l))
-    if found == 0:
-        rep.broke("I3: no case-selecting comparison found")
-
 
 # ---- I2: binary_interval_search by exhaustive abstract execution of its AST over an iterator/index machine ----------
 
